@@ -175,6 +175,30 @@ def py_value(v, env):
     raise ValueError(v)
 
 
+class _EmptyProblemList(Exception):
+    """an exception whose instances are falsy (a collection of problems, raised while empty)"""
+
+    def __len__(self):
+        return 0
+
+
+class _Unprintable(Exception):
+    def __str__(self):
+        raise RuntimeError("this exception cannot be printed")
+
+
+_EXC_KINDS = [lambda: ValueError("scripted ValueError"), lambda: ValueError(), lambda: _EmptyProblemList(),
+              lambda: KeyError(3), lambda: _Unprintable("x")]
+_exc_n = [0]
+
+
+def _scripted_exception():
+    """what a handler may raise besides TypeError: with a message, without arguments, a falsy instance, a non-string
+    argument, one that cannot be formatted - the reaction must not depend on it"""
+    _exc_n[0] += 1
+    return _EXC_KINDS[_exc_n[0] % len(_EXC_KINDS)]()
+
+
 def make_handler(h, env):
     kind = h[0]
     if kind == "gen":
@@ -190,7 +214,7 @@ def make_handler(h, env):
                     env.apply(it[2])
                     if it[1]:
                         raise TypeError("scripted TypeError")
-                    raise ValueError("scripted ValueError")
+                    raise _scripted_exception()
                 elif it[0] == "ret":
                     env.apply(it[1])
                     return
@@ -205,7 +229,7 @@ def make_handler(h, env):
             env.apply(h[2])
             if h[1]:
                 raise TypeError("scripted TypeError")
-            raise ValueError("scripted ValueError")
+            raise _scripted_exception()
 
         return handler
     if kind == "fnone":
